@@ -53,3 +53,15 @@ Theorem C09_old_compression_variable_shared_refuted :
   (let '(st, xs) := write_cfields true [gA; gA; rA (CCont 3); rA (CCont 3)] st0 in map snd xs) =
   [Some 3%nat; Some 3%nat; Some 5%nat; Some 5%nat].
 Proof. exact old_compression_variable_shared_refuted. Qed.
+
+(* Seeded variant s5: g['sample_ncdim'] initialised once per file instead of per
+   field.  [pA; pB]: pA's data are gathered over (y, x) with list 5; pB, on the
+   same dimensions, has uncompressed data and a construct gathered over (y, x)
+   with list 6: with the carried-over mapping pB's construct is written on pA's
+   list variable (its own is never written); not in the other order, and not
+   with the mapping reset per field. *)
+Theorem C09_carried_over_mapping_refuted :
+  gown_all false [pA; pB] = false /\ gown_all false [pB; pA] = true /\
+  gown_all true [pA; pB] = true /\ gown_all true [pB; pA] = true /\
+  snd (write_cfields2 false [pA; pB] st0 []) <> snd (write_cfields2 true [pA; pB] st0 []).
+Proof. exact carried_over_mapping_refuted. Qed.
